@@ -194,8 +194,11 @@ SESSION2_DB3 = "db3{%s=%s}" % (W.khex("x2"), W.vrepr(W.genval(700, 2)))
 
 
 def crash_cases(run, impl, wd, name, crc, ops, kills, model=None):
-    """kills: list of (killat, rec_kill or None, cont).  cont = continue into a second session after the
+    """kills: list of (killat, rec_kill or None, cont, t2, cfg).  cont = continue into a second session after the
     recovering open: reopen, create db 3, put/del/sync, CLEAN close, reopen and dump.
+    cfg = None (every session opens with the writer's options) or (r1, r2): option flags of the first recovering open
+    (the one that may be killed at rec_kill) and of every later session (second recovering open, second session,
+    final open) - the outcome of a recovery must not depend on the options of the process that performs it.
     Returns list of (trace of the killed run, line of the first complete recovering open, all lines, cont result)"""
     n = len(kills)
     nch = max(1, min(vlib.NCPU, n))
@@ -204,6 +207,7 @@ def crash_cases(run, impl, wd, name, crc, ops, kills, model=None):
         k, rk = kk[0], kk[1]
         cont = len(kk) > 2 and kk[2]
         t2 = len(kk) > 3 and kk[3] and model is not None
+        r1, r2 = kk[4] if len(kk) > 4 and kk[4] else (crc, crc)
         d = os.path.join(wd, "%s-k%d" % (name, ci))
         shutil.rmtree(d, ignore_errors=True)
         os.makedirs(d)
@@ -213,12 +217,14 @@ def crash_cases(run, impl, wd, name, crc, ops, kills, model=None):
             # keep the files of the crash for Replay.recover (model) and for the recovery step alone (implementation)
             lines += ["cp %s %s/m" % (d, d), "cp %s %s/i" % (d, d), "wal %s/i %d" % (d, crc)]
         if rk is not None:
-            lines.append("rec %s %d %d" % (d, crc, rk))
-        lines.append("rec %s %d -1" % (d, crc))
+            lines.append("rec %s %d %d" % (d, r1, rk))
+            lines.append("rec %s %d -1" % (d, r2))
+        else:
+            lines.append("rec %s %d -1" % (d, r1))
         nrec = len(lines)
         if cont:
-            lines.append("run %s %d 0 -1 2 %s" % (d, crc, " ".join(SESSION2)))
-            lines.append("rec %s %d -1" % (d, crc))
+            lines.append("run %s %d 0 -1 2 %s" % (d, r2, " ".join(SESSION2)))
+            lines.append("rec %s %d -1" % (d, r2))
         chunks[c] += lines
         idx[c].append((ci, len(lines), nrec, cont, t2))
     outs = W.par_lines(impl, chunks)
@@ -308,7 +314,7 @@ def proto_t2(run, model, mode, d, crc, ops, full):
     return None
 
 
-def do_history(run, impl, wd, name, crc, ops, nfirst, nlater, rec_kills, corpus_kills=None, model=None, mode="wrap", ncont=12):
+def do_history(run, impl, wd, name, crc, ops, nfirst, nlater, rec_kills, corpus_kills=None, model=None, mode="wrap", ncont=12, ncross=0):
     rng = run.rng
     d, line, full = full_run(impl, wd, name, crc, ops)
     if line != "run exit=0" or full["nfx"] is None:
@@ -336,7 +342,8 @@ def do_history(run, impl, wd, name, crc, ops, nfirst, nlater, rec_kills, corpus_
     for k, c, off, ln in full["fx"]:
         run.dist("fx_%s_%s" % ({1: "write", 2: "pwrite", 3: "ftruncate", 4: "fallocate", 5: "fsync", 6: "fdatasync", 7: "msync", 8: "walrec"}.get(k, k), c))
     if corpus_kills is not None:
-        kills = [(N if k == "end" else k, rk, True) for k, rk in corpus_kills]
+        # [killat, rec_kill] or [killat, rec_kill, [r1, r2]] (options of the recovering sessions, see crash_cases)
+        kills = [(N if x[0] == "end" else x[0], x[1], True, False, tuple(x[2]) if len(x) > 2 and x[2] else None) for x in corpus_kills]
     else:
         pts = list(range(0, min(N, nfirst) + 1))
         if N > nfirst:
@@ -376,14 +383,32 @@ def do_history(run, impl, wd, name, crc, ops, nfirst, nlater, rec_kills, corpus_
         kills = [(k, None, k in conts, k in t2pts) for k in pts]
         for _ in range(rec_kills):
             kills.append((rng.choice(pts), rng.below(6), False))
+        # cross-configuration recoveries: the sessions after the kill open the store with options that differ from
+        # the writer's (log-buffer size, checksum checking) and possibly from each other.  What a recovery yields is
+        # a function of the two files only (Proto.recover_open, C05_recovery_independent_of_recovering_config): the
+        # prefix / synced-work / second-session oracles are asked unchanged.
+        alts = W.cross_configs(crc)
+        for _ in range(ncross):
+            k = N if rng.chance(1, 4) else rng.choice(pts)
+            r1 = rng.choice(alts)
+            r2 = rng.choice(alts + [crc])
+            rk = rng.below(6) if rng.chance(1, 4) else None
+            kills.append((k, rk, rk is None and rng.chance(1, 2), False, (r1, r2)))
     res = crash_cases(run, impl, wd, name, crc, ops, kills, model=model)
     for kk, (tr, recline, ls, contres) in zip(kills, res):
         k, rk = kk[0], kk[1]
+        cfg = kk[4] if len(kk) > 4 else None
         run.dist("crash_level_%d" % (2 if rk is not None else 1))
+        if cfg:
+            run.dist("recovery_cross_config")
+            for kd in W.cross_kind(crc, cfg[0]):
+                run.dist("recovery_cross_config_" + kd)
+            if contres is not None or rk is not None:
+                run.dist("recovery_cross_config_later_session_%s" % ("as_writer" if cfg[1] == crc else "as_first_recovery" if cfg[1] == cfg[0] else "third_configuration"))
         lo, hi, done, inflight = allowed_prefixes(ops, tr)
         run.dist("crash_in_flight_%s" % (ops[done][0] if inflight and done < len(ops) else "between"))
-        run.case("%s|%d|%d|%s" % (" ".join(ops), crc, k, rk), nontrivial=True,
-                 sample={"ops": len(ops), "crc": crc, "killat": k, "of": N, "rec_kill": rk, "impl": recline[:160]} if k % 53 == 0 else None)
+        run.case("%s|%d|%d|%s%s" % (" ".join(ops), crc, k, rk, "|rec%d,%d" % cfg if cfg else ""), nontrivial=True,
+                 sample={"ops": len(ops), "crc": crc, "killat": k, "of": N, "rec_kill": rk, "recovering_options": cfg, "impl": recline[:160]} if k % 53 == 0 else None)
         ok, why, rng_, got = judge(ops, states, tr, recline)
         cl = None
         if ok:
@@ -407,13 +432,17 @@ def do_history(run, impl, wd, name, crc, ops, nfirst, nlater, rec_kills, corpus_
                 continue
         if cl is None:
             cl = growth_class(ops, full, k)
+        if cfg:
+            cl = "cross-config" if cl in ("other", "second-session") else cl
+            why = "store written with [%s]; sessions after the kill opened with [%s] then [%s]: %s" % (
+                W.cfg_text(crc), W.cfg_text(cfg[0]), W.cfg_text(cfg[1]), why)
         if os.environ.get("VERIF_DEBUG"):
             print("DBG viol", name, "kill", k, "/", N, "rk", rk, cl, rng_, why[:90])
         run.cov.setdefault("violations_by_class", {})
         run.cov["violations_by_class"][cl] = run.cov["violations_by_class"].get(cl, 0) + 1
         if run.cov["violations_by_class"][cl] > 2:
             continue
-        run.violation({"ops": ops, "crc": crc, "killat": k, "effects": N, "rec_kill": rk, "class": cl,
+        run.violation({"ops": ops, "crc": crc, "killat": k, "effects": N, "rec_kill": rk, "class": cl, "rec_cfg": list(cfg) if cfg else None,
                        "second_session": SESSION2 if contres is not None else None,
                        "admissible_prefixes": list(rng_), "impl": recline[:3000], "recovered": got,
                        "final": (contres or {}).get("final", "")[:1500] if contres is not None else None}, why)
@@ -434,33 +463,35 @@ def check(run):
             if cf.endswith(".json"):
                 c = json.load(open(os.path.join(cdir, cf)))
                 do_history(run, impl, wd, "corp" + cf[:-5].replace("-", ""), c["crc"], c["ops"], 0, 0, 0,
-                           corpus_kills=[(x[0], x[1]) for x in c["kills"]], model=model, mode=mode)
+                           corpus_kills=c["kills"], model=model, mode=mode)
         if run.tier == "quick":
-            nh, nfirst, nlater, rk = 30 * mult, 300, 200, 25
+            nh, nfirst, nlater, rk, ncross = 30 * mult, 300, 200, 25, 10
         else:
-            nh, nfirst, nlater, rk = 400 * mult, 1 << 30, 0, 150
+            nh, nfirst, nlater, rk, ncross = 400 * mult, 1 << 30, 0, 150, 60
         for h in range(nh):
             crc = run.rng.choice([0, 0, 1, 2, 3])
             growth = (h % 3 == 2) if run.tier == "quick" else run.rng.chance(1, 2)
             ops = gen_history(run.rng, growth)
             run.dist("history_%s" % ("growth" if growth else "no_growth"))
-            do_history(run, impl, wd, "h%d" % h, crc, ops, nfirst, nlater, rk, model=model, mode=mode)
+            do_history(run, impl, wd, "h%d" % h, crc, ops, nfirst, nlater, rk, model=model, mode=mode, ncross=ncross)
         for h in range((10 if run.tier == "quick" else 150) * mult):
             crc = run.rng.choice([0, 1, 2, 4, 4, 5, 6])     # bit 4: IWKV_NO_TRIM_ON_CLOSE
             ops = gen_close_history(run.rng)
             run.dist("history_ending_in_close_%s" % ("no_trim" if crc & 4 else "trim"))
-            do_history(run, impl, wd, "hc%d" % h, crc, ops, nfirst, nlater, 4, model=model, mode=mode, ncont=3)
+            do_history(run, impl, wd, "hc%d" % h, crc, ops, nfirst, nlater, 4, model=model, mode=mode, ncont=3, ncross=ncross // 2)
         for h in range((6 if run.tier == "quick" else 80) * mult):
             crc = run.rng.choice([2, 2, 3])           # small log buffer: unsynced tails reach the log
             ops = gen_backup_history(run.rng)
             run.dist("history_inside_online_backup")
-            do_history(run, impl, wd, "hb%d" % h, crc, ops, nfirst, nlater, 6, model=model, mode=mode, ncont=6)
+            do_history(run, impl, wd, "hb%d" % h, crc, ops, nfirst, nlater, 6, model=model, mode=mode, ncont=6, ncross=ncross // 2)
     finally:
         shutil.rmtree(wd, ignore_errors=True)
     return run.finish(level=LEVEL,
                       rule="random histories (db create, put with values 0..40000 bytes, del, iwkv_sync, forced checkpoint; 1-2 databases; "
                            "checksums on/off; 8 MB / 4 KB log buffer) x every crash point among the first 300 effects + 200 sampled later "
-                           "ones, plus crashes inside the recovery itself (second level); a case = (history, crash point, recovery crash point)",
+                           "ones, plus crashes inside the recovery itself (second level), plus recoveries by processes opened with another "
+                           "log-buffer size and/or checksum setting than the writer's (distribution key recovery_cross_config); "
+                           "a case = (history, crash point, recovery crash point, options of the recovering sessions)",
                       assumptions=["kill model: a write(2)/ftruncate/msync that returned is durable, the in-process log buffer and the private "
                                    "mapping are lost; power-loss reordering is outside the property",
                                    "the checkpoint thread's timers are set to their maximum so that effects are a function of the history"])
@@ -477,14 +508,17 @@ def replay(run, path):
         if r.get("effects") is not None and k == r["effects"]:
             k = full["nfx"]
         cont = bool(r.get("second_session"))
-        res = crash_cases(run, impl, wd, "r", r["crc"], ops, [(k, r.get("rec_kill"), cont)])[0]
+        cfg = tuple(r["rec_cfg"]) if r.get("rec_cfg") else None
+        res = crash_cases(run, impl, wd, "r", r["crc"], ops, [(k, r.get("rec_kill"), cont, False, cfg)])[0]
         ok, why, rng_, got = judge(ops, ref_states(ops), res[0], res[1])
         if ok and cont and res[3] is not None:
             why2 = judge_continuation(res[1], res[3])
             if why2:
                 ok, why = False, why2
         print("history:", " ".join(ops)); print("checksum/buffer mode:", r["crc"], " kill before effect", k, "of", full["nfx"], " recovery kill:", r.get("rec_kill"))
-        print("class:", r.get("class") if cont else growth_class(ops, full, k), " admissible prefixes:", rng_)
+        if cfg:
+            print("store written with [%s]; sessions after the kill opened with [%s] then [%s]" % (W.cfg_text(r["crc"]), W.cfg_text(cfg[0]), W.cfg_text(cfg[1])))
+        print("class:", r.get("class") if (cont or cfg) else growth_class(ops, full, k), " admissible prefixes:", rng_)
         print("recovering open:", res[1][:600])
         if cont and res[3] is not None:
             print("second session:", " ".join(SESSION2), "->", res[3]["run"]); print("open after its clean close:", res[3]["final"][:600])
